@@ -225,6 +225,8 @@ where
         // handle_message_with_context method then finishes processing
         // and response creation.
         let catalog = self.catalog();
+        #[cfg(feature = "verif_hooks")]
+        crate::verif::failpoint(crate::verif::SERVER_AFTER_CATALOG_SNAPSHOT);
         let mut context = Context::new(catalog.as_ref(), received, received_info, response);
         self.handle_message_with_context(&mut context);
 
@@ -472,6 +474,8 @@ where
 
         // With preliminary checks complete, it's time to start the
         // opcode-specific handling!
+        #[cfg(feature = "verif_hooks")]
+        crate::verif::failpoint(crate::verif::SERVER_BEFORE_DISPATCH);
         match context.received.opcode() {
             Opcode::QUERY => self.handle_query(context),
             _ => context.response.set_rcode(Rcode::NOTIMP),
